@@ -6,9 +6,10 @@ on everything the process has allocated before, i.e. it is a source of
 nondeterminism the simulator has to own. In runs that enable this seam the
 builtin `id` is replaced - for instances of the library's classes only - by a
 deterministic and *adversarial* allocator: identifiers are small integers
-handed out on first use, and an identifier returns to the top of a free list
-the moment its object dies, so the next library object that is asked for its
-id gets the most recently freed one. This is within Python's contract for
+handed out on first use, and an identifier returns to the top of its class's
+free list the moment its object dies, so the next object of that class that is
+asked for its id gets the most recently freed one (what a size-class allocator
+does with addresses, made certain instead of likely). This is within Python's contract for
 `id()`; code that is only correct if identifiers are never reused (a cache or
 a freshness stamp keyed by id) fails here deterministically instead of once in
 a while.
@@ -18,15 +19,15 @@ import weakref
 
 _real_id = builtins.id
 _map = {}  # real address -> (simulated id, weak reference)
-_free = []  # most recently freed simulated ids on top
+_free = {}  # class -> stack of freed simulated ids (most recent on top)
 _next = [1]
 _installed = [False]
 stats = {"assigned": 0, "recycled": 0}
 
 
-def _release(key, sid):
+def _release(key, sid, cls):
     _map.pop(key, None)
-    _free.append(sid)
+    _free.setdefault(cls, []).append(sid)
 
 
 def sim_id(obj):
@@ -37,19 +38,25 @@ def sim_id(obj):
     entry = _map.get(key)
     if entry is not None:
         return entry[0]
-    if _free:
-        sid = _free.pop()
+    cls = type(obj)
+    pool = _free.get(cls)
+    if pool:
+        # like a size-class allocator: the slot a dead object of this class
+        # left behind is the first one to be handed out again
+        sid = pool.pop()
         stats["recycled"] += 1
+        fresh = False
     else:
         sid = _next[0]
         _next[0] += 1
+        fresh = True
     try:
-        ref = weakref.ref(obj, lambda r, key=key, sid=sid: _release(key, sid))
+        ref = weakref.ref(obj, lambda r, key=key, sid=sid, cls=cls: _release(key, sid, cls))
     except TypeError:  # not weak-referenceable: keep the real address
-        if sid == _next[0] - 1:
+        if fresh:
             _next[0] -= 1
         else:
-            _free.append(sid)
+            pool.append(sid)
         return key
     _map[key] = (sid, ref)
     stats["assigned"] += 1
